@@ -9,10 +9,20 @@
 //	    impl = outcome of the real cl.NewEx on the parser's tree EVEN IF the parser reported errors
 //	    (never done by tpl.New; exercises the panic branches of the model; no oracle)
 //
-// Oracle (on the real implementation only): tpl.New(src) panics => key "new-panic-<class>".
+//	tplnewex <eofpos>;<real tokens>;<scanner error count>;<strconv results>;<srcOk>
+//	    impl = dynamic type of the error returned by the real tpl.NewEx(src, "f.tpl", line, col) (after
+//	    Relocate) " / " the one returned by the real tpl.FromFile(nil, "", src, nil); src is given as string,
+//	    []byte, io.Reader, *bytes.Buffer, and as unreadable sources (nil *bytes.Buffer, an int, a failing
+//	    reader, nil = read file ""): srcOk=0
+//
+// Oracle (on the real implementation only): tpl.New(src) panics => key "new-panic-<class>";
+// tpl.NewEx / tpl.FromFile panic => "newex-panic-<class>" / "fromfile-panic-<class>".
+// Excluded on purpose: the RetProc `params` of tpl.New/NewEx (odd count and non-string names panic by
+// design: documented programmer errors, not grammar input).
 package main
 
 import (
+	"bytes"
 	"fmt"
 	"os"
 	"path/filepath"
@@ -152,6 +162,8 @@ func canon(err error, sc *tf.Scanned) string {
 
 func panicClass(p string) string {
 	switch {
+	case strings.Contains(p, "todo:"):
+		return "todo"
 	case strings.Contains(p, "index out of range"):
 		return "index"
 	case strings.Contains(p, "slice bounds"):
@@ -279,6 +291,112 @@ func newCase(src string, tag string) {
 		o.Count("with_conflicts")
 	}
 	o.Case(line, out, out != "PARSEERR")
+	newExCase(src, 0)
+	if tag == "fixed" || tag == "builtin" || tag == "grammar" || tag == "escape" {
+		newExCount++
+		newExCase(src, 1+newExCount%7)
+	}
+}
+
+// errKind: dynamic type of an error as the model names it.
+func errKind(err error) string {
+	switch e := err.(type) {
+	case nil:
+		return "ok"
+	case *scanner.Error:
+		return "*scanner.Error"
+	case scanner.ErrorList:
+		return "scanner.ErrorList"
+	case *matcher.Error:
+		return "*matcher.Error"
+	case errors.List:
+		parts := make([]string, len(e))
+		for i, x := range e {
+			parts[i] = errKind(x)
+		}
+		return "errors.List[" + strings.Join(parts, ",") + "]"
+	}
+	return "plain"
+}
+
+type failingReader struct{}
+
+func (failingReader) Read([]byte) (int, error) { return 0, fmt.Errorf("read failed") }
+
+// srcVariant: the same text as the different `src any` kinds iox.ReadSourceLocal understands, and
+// sources it cannot read.
+func srcVariant(src string, v int) (any, bool) {
+	switch v {
+	case 0:
+		return src, true
+	case 1:
+		return []byte(src), true
+	case 2:
+		return strings.NewReader(src), true
+	case 3:
+		return bytes.NewBufferString(src), true
+	case 4:
+		return (*bytes.Buffer)(nil), false
+	case 5:
+		return 7, false
+	case 6:
+		return failingReader{}, false
+	}
+	return nil, false // os.ReadFile("")
+}
+
+var lineCols = [][2]int{{1, 1}, {3, 5}, {0, 0}, {-2, -7}, {1 << 40, 1 << 40}, {1, 80}, {2, 1}}
+
+var newExCount int
+
+func newExCase(src string, variant int) {
+	sc := tf.Scan([]byte(src))
+	_, ok := srcVariant(src, variant)
+	line := fmt.Sprintf("tplnewex\t%s;%d;%s;%d", sc.TokField(), sc.ScanErrs, unqField(&sc), b2i(ok))
+	setCurrent(line, src)
+	newExCount++
+	lc := lineCols[newExCount%len(lineCols)]
+	run := func(hide bool) string {
+		return guarded(func() string {
+			tpl.ShowConflict(!hide)
+			defer tpl.ShowConflict(true)
+			s, _ := srcVariant(src, variant)
+			_, err := tpl.NewEx(s, "f.tpl", lc[0], lc[1])
+			return errKind(err)
+		})
+	}
+	a := run(false)
+	if a2 := run(true); a2 != a && !strings.HasPrefix(a, "PANIC") {
+		a = "SHOWCONFLICT-MISMATCH " + a + " vs " + a2
+	}
+	b := guarded(func() string {
+		s, _ := srcVariant(src, variant)
+		_, err := tpl.FromFile(nil, "", s, nil)
+		return errKind(err)
+	})
+	if strings.HasPrefix(a, "PANIC") {
+		o.Oracle("newex-panic-"+panicClass(a), line, fmt.Sprintf("tpl.NewEx(%q (source kind %d), \"f.tpl\", %d, %d): %s", src, variant, lc[0], lc[1], a))
+		a = "PANIC"
+	}
+	if strings.HasPrefix(b, "PANIC") {
+		o.Oracle("fromfile-panic-"+panicClass(b), line, fmt.Sprintf("tpl.FromFile(nil, \"\", %q (source kind %d), nil): %s", src, variant, b))
+		b = "PANIC"
+	}
+	if a == "TIMEOUT" || b == "TIMEOUT" {
+		o.Oracle("newex-timeout", line, src)
+	}
+	out := a
+	if a != "ok" && a != "PANIC" && !strings.HasPrefix(a, "SHOW") {
+		out = "err " + a
+	}
+	outb := b
+	if b != "ok" && b != "PANIC" {
+		outb = "err " + b
+	}
+	o.Count("kind_newex")
+	o.Count("newex_" + strings.SplitN(a, "[", 2)[0])
+	o.Count(fmt.Sprintf("newex_srckind_%d", variant))
+	o.Case(line, out+" / "+outb, true)
 }
 
 func clCase(src string) {
@@ -490,6 +608,14 @@ func replay(line string) {
 	}
 	if fs[0] == "tplcl" {
 		clCase(b.String())
+	} else if fs[0] == "tplnewex" {
+		v := 0
+		if len(parts) >= 5 && parts[4] == "0" {
+			v = 5
+		}
+		for i := 0; i < len(lineCols); i++ { // every (line, col) pair
+			newExCase(b.String(), v)
+		}
 	} else {
 		newCase(b.String(), "replay")
 	}
